@@ -633,6 +633,10 @@ impl G2Projective {
         } else {
             scalars.len()
         };
+        if n == 0 {
+            // blst's Pippenger indexes the first point unconditionally.
+            return G2Projective::identity();
+        }
 
         let points =
             unsafe { std::slice::from_raw_parts(points.as_ptr() as *const blst_p2, points.len()) };
